@@ -40,7 +40,7 @@ Params(f) ==
           ur |-> Pick({<<-2, 1>>, <<0, 1>>, <<1, 2>>}, {<<-1, 2>>, <<2, 1>>}), gr |-> Pick({<<7, 5>>, <<5, 3>>}, {<<3, 1>>}),
           xd0 |-> Pick({<<1, 2>>}, {<<-3, 1>>})]
     [] f = "Sedov" -> [geometry |-> Geo, gamma |-> Pick({<<7, 5>>, <<5, 3>>}, {<<3, 1>>}), rho0 |-> Rho,
-                       omega |-> Pick({<<0, 1>>, <<1, 2>>, <<-1, 1>>, <<-2, 1>>}, {<<4, 5>>}),   \* -1: the singular value, -2: a vacuum-type value (resolved below)
+                       omega |-> Pick({<<0, 1>>, <<1, 2>>, <<-1, 1>>, <<-2, 1>>, <<-3, 1>>, <<-4, 1>>}, {<<4, 5>>}),   \* negative: symbolic values resolved below (singular, vacuum-type, the two special exponents)
                        eblast |-> Pick({<<17, 20>>, <<2, 1>>}, {})]
     [] f = "EHEP"  -> [D |-> Pick({<<17, 20>>, <<1, 1>>}, {}), rho_0 |-> Pick({<<8, 5>>, <<1, 1>>}, {}),
                        up |-> Pick({<<1, 20>>, <<1, 10>>}, {<<0, 1>>}), xtilde |-> Pick({<<1, 1>>, <<4, 5>>}, {})]
@@ -162,7 +162,7 @@ Defined(f, p, t) ==
                                            /\ (Tier = "quick" => QEq(p.gamma, <<5, 3>>) /\ QEq(p.Cv, <<1, 1>>) /\ QEq(p.Tref, <<100, 1>>))
     [] f = "Riemann2D" -> ~(QEq(p.pB, p.pT) /\ QEq(p.thB, p.thT))     \* equal pressures and directions: a pure slip line, no waves
     [] f = "BBNoh" -> p.eos # "ideal" => p.symmetry = 0     \* with a non-ideal EOS the cold converging inflow is not an EOS state (section 7)
-    [] f = "Sedov" -> QLt(p.omega, <<Geom(f, p), 1>>)
+    [] f = "Sedov" -> QLt(p.omega, <<Geom(f, p), 1>>) /\ QLe(<<0, 1>>, p.omega)
     [] f = "DSDcyl" -> QLt(p.r_1, p.r_2) /\ QLt(QDiv(p.alpha_1, p.D_CJ_1), p.r_1) /\ QLt(QDiv(p.alpha_2, p.D_CJ_2), p.r_2)
     [] f = "Kenamond2" -> QLe(p.D2, p.D1)
     [] f = "RodNH" -> p.bc = "BC2" => QEq(p.g1, p.g2)          \* documented: equal fluxes at both ends
@@ -198,10 +198,16 @@ Defined(f, p, t) ==
 (* Sedov: the density exponent at which the solution type changes, omega* = (3j - 2 + gamma (2 - j)) / (gamma + 1); *)
 (* larger exponents (below the geometry j) give the vacuum type                                                    *)
 OmegaSing(j, g) == QDiv(QAdd(<<3 * j - 2, 1>>, QMul(g, <<2 - j, 1>>)), QAdd(g, <<1, 1>>))
+(* the two further exponents at which a denominator of the closed form vanishes and the solver switches to special formulas: *)
+(* omega2 = (2 (gamma - 1) + j) / gamma, omega3 = j (2 - gamma)                                                                 *)
 Resolve(f, q) ==
   IF f = "Sedov" /\ q.omega[1] < 0
   THEN LET ws == OmegaSing(q.geometry, q.gamma)
-       IN  [q EXCEPT !.omega = IF q.omega[1] = -1 THEN ws ELSE QDiv(QAdd(ws, <<q.geometry, 1>>), <<2, 1>>)]
+           j  == <<q.geometry, 1>>
+       IN  [q EXCEPT !.omega = CASE q.omega[1] = -1 -> ws
+                                 [] q.omega[1] = -2 -> QDiv(QAdd(ws, j), <<2, 1>>)
+                                 [] q.omega[1] = -3 -> QDiv(QAdd(QMul(<<2, 1>>, QSub(q.gamma, <<1, 1>>)), j), q.gamma)
+                                 [] OTHER           -> QMul(j, QSub(<<2, 1>>, q.gamma))]
   ELSE q
 
 Init == \E f \in Camps : \E q \in Product(Params(f)) : \E t \in TimesOf(f, q) :
